@@ -14,7 +14,7 @@ COMMON_NOTE = (
 
 CHECKS = {
     "C01": dict(
-        text="Bounded exhaustive exploration of the real model: every configuration within d deviations of 10 water bases and every "
+        text="Bounded exhaustive exploration of the real model: every configuration within d deviations of the water bases (21 at present, see ASBUILT.md) and every "
              "single/double-day weather deviation is executed to termination, and the daily ledger (1e-6 mm) and the carry-over / "
              "season-reset relation are evaluated on every transition. Mass conservation is a per-step invariant, so a per-transition "
              "oracle over an enumerated environment is the right level.",
@@ -78,7 +78,7 @@ CHECKS = {
         ref="3/C09",
     ),
     "C10": dict(
-        text="Operation sequences (construct/init/run) of length <= 2 (quick) / 3 (thorough) over 8 configurations touching every process-global, each in its own "
+        text="Operation sequences (construct/init/run) of length <= 2 (quick) / 3 (thorough) over the configuration set touching every process-global (18 at present), each in its own "
              "fresh interpreter, under several hash seeds and pool sizes; oracle: table digest equals the configuration run alone, and a global-state monitor "
              "(module-level objects, class attributes, default-argument tuples, numpy error state) never changes, which closes the argument for histories of "
              "any length.",
@@ -100,7 +100,7 @@ CHECKS = {
         ref="3/C12",
     ),
     "C13": dict(
-        text="The complete irrigation sub-product (19 strategy settings x daily max x seasonal max x efficiency x initial water x words) is executed; the per-strategy "
+        text="The complete irrigation sub-product (21 strategy settings x daily max x seasonal max x efficiency x initial water x words) is executed; the per-strategy "
              "contract is evaluated on every transition and the threshold/interval decision and amount are re-computed from the captured inputs/outputs of the "
              "real irrigation() call.",
         technique="exhaustive enumeration of the irrigation parameter product on the implementation; per-transition contract with decision re-computation",
@@ -113,7 +113,7 @@ CHECKS = {
         ref="3/C14",
     ),
     "C15": dict(
-        text="All 120 permutations of the required weather columns, extra columns, five index kinds and extra leading/trailing rows (alone in the quick tier, the "
+        text="All 120 permutations of the required weather columns, extra columns (incl. name clashes), eight index kinds (incl. repeated labels), climate files read back through prepare_weather, and extra leading/trailing rows (alone in the quick tier, the "
              "full 9600-table product in the thorough tier) for a calendar and a thermal crop; tables bitwise equal to the canonical-table run.",
         technique="exhaustive enumeration of equivalent weather tables; bitwise differential comparison",
         ref="3/C15",
@@ -138,14 +138,14 @@ CHECKS = {
         ref="3/C18",
     ),
     "C19": dict(
-        text="Soils x (deep / deepened profiles) x 17 water-table settings x crops x irrigation x words; adjusted field capacity range on every groundwater check, "
+        text="Soils x (deep / deepened profiles) x 19 water-table settings (and other date notations) x crops x irrigation x words; adjusted field capacity range on every groundwater check, "
              "capillary-rise cap around every capillary_rise call, saturation below the table after every transition, z_gw against a reference interpolation, "
              "no-table zeros, and bitwise equality of (table at 50 m) with (no table).",
         technique="exhaustive configuration enumeration on the implementation; per-transition invariants with call capture, reference interpolation, differential pairs",
         ref="3/C19",
     ),
     "C20": dict(
-        text="8 bases x 21 neutral transformations alone and in pairs; all four tables bitwise equal to the base run.",
+        text="18 bases (incl. thermal-time crops and fallow-bund bases) x 24 neutral transformations alone and in pairs; all four tables bitwise equal to the base run.",
         technique="exhaustive enumeration of neutral transformations (singles and pairs); bitwise differential comparison",
         ref="3/C20",
     ),
